@@ -148,10 +148,14 @@ def write_hists(res, path):
     return n, sample
 
 
-def replay_ingress(ctx, path, tag, maxbad=40, timeout=1500):
+def replay_ingress(ctx, path, tag, maxbad=40, timeout=1500, kinds=None):
+    """kinds: mismatch kinds that end a history and count towards maxbad (the running property's
+    clauses); other kinds are recorded as "soft" rows and the replay goes on."""
     out = ctx.path("out_%s.ndjson" % tag)
-    rc, text, wall = ctx.go_test("aspen", "./internal/kv", HARNESS, "^TestVerifKVIngress$",
-                                 env={"VERIF_IN": path, "VERIF_OUT": out, "VERIF_WORKERS": 6, "VERIF_MAXBAD": maxbad},
+    env = {"VERIF_IN": path, "VERIF_OUT": out, "VERIF_WORKERS": 6, "VERIF_MAXBAD": maxbad}
+    if kinds:
+        env["VERIF_KINDS"] = ",".join(sorted(kinds))
+    rc, text, wall = ctx.go_test("aspen", "./internal/kv", HARNESS, "^TestVerifKVIngress$", env=env,
                                  tag=tag, timeout=timeout)
     rows = ctx.read_ndjson(out)
     if rc != 0 or not rows or not rows[0].get("summary"):
@@ -205,9 +209,13 @@ def run_ingress(ctx, want):
             n += k
             fams.append({"family": tag, "histories": k, "pools": "all" if kw["npools"] == 0 else kw["npools"],
                          "tlc_wall_s": round(r.wall, 1), **{x: kw[x] for x in ("pool", "dup", "batch", "nlocal")}})
-    summ, bad = replay_ingress(ctx, hp, "rp_all")
+    summ, bad = replay_ingress(ctx, hp, "rp_all", kinds=kinds)
     stats = summ.get("stats") or {}
-    if summ["replayed"] + len(bad) < n and len(bad) < 40:
+    hardbad = [b for b in bad if b.get("r") != "soft"]
+    if summ["replayed"] + len(hardbad) < n and len(hardbad) < 40:
+        if (stats.get("timeouts") or 0) > 8 and not hardbad:
+            raise vlib.Inconclusive("the ingress pipeline swallowed operations (%s timeouts); sibling-property mismatches: %s" % (
+                stats.get("timeouts"), json.dumps([b for b in bad if b.get("r") == "soft"][:2])[:500]))
         raise vlib.Inconclusive("replayed %s of %s histories" % (summ["replayed"], n))
     total = summ["replayed"]
     judged = 0
@@ -227,7 +235,8 @@ def run_ingress(ctx, want):
         one = ctx.path("one.ndjson")
         with open(one, "w") as f:
             f.write(json.dumps(hist) + "\n")
-        s2, bad2 = replay_ingress(ctx, one, "repro", maxbad=1)
+        s2, bad2 = replay_ingress(ctx, one, "repro", maxbad=1, kinds=kinds)
+        bad2 = [x for x in bad2 if x.get("r") != "soft"]
         if not bad2:
             raise vlib.Inconclusive("ingress mismatch did not reproduce: %s" % json.dumps(b)[:400])
         step = hist[b["step"]] if 0 <= b["step"] < len(hist) else {"a": "end"}
